@@ -3,7 +3,8 @@ from ast import Attribute, Subscript, Load, NodeVisitor
 from .compat import PY2
 from .scope import FuncScope, Flow, SourceScope, ClassScope, CompScope
 from .name import AssignedName, ImportedName
-from .util import (np, get_expr_end, get_indexes_for_target, visitor, get_any_marked_name)
+from .util import (np, get_expr_end, get_indexes_for_target, visitor, get_any_marked_name,
+                   insert_loc)
 
 if PY2:
     UNSUPPORTED_ASSIGMENTS = Subscript
@@ -314,7 +315,7 @@ class extract_visitor(NodeVisitor):
             p = CompScope(cur.scope, self.top, cur).flow
         for i, g in enumerate(node.generators):
             if i:
-                self.visit_in_flow(g.iter, p)
+                p = self.visit_in_flow(g.iter, p)
             pp = p
             p = self.top.add_flow(Flow('comp', p.scope, [p]))
             for nn, _idx in get_indexes_for_target(g.target, [], []):
@@ -327,13 +328,15 @@ class extract_visitor(NodeVisitor):
 
             if g.ifs:
                 for inode in g.ifs:
-                    self.visit_in_flow(inode, p)
+                    p = self.visit_in_flow(inode, p)
+
+        # (a nested comprehension or a walrus opens new regions: go on in
+        # the region the sub-expression ends in)
+        if hasattr(node, 'key'):
+            p = self.visit_in_flow(node.key, p)
 
         elt = getattr(node, 'elt', None) or node.value  # type: ast.AST # type: ignore[union-attr]
-        self.visit_in_flow(elt, p)
-
-        if hasattr(node, 'key'):
-            self.visit_in_flow(node.key, p)
+        p = self.visit_in_flow(elt, p)
 
         if not leaks:
             p.scope.flow = p
@@ -386,15 +389,29 @@ class extract_visitor(NodeVisitor):
 
     def visit_NamedExpr(self, node):
         # type: (ast.NamedExpr) -> None
+        # the value first: a walrus it contains binds before this one does
+        self.visit(node.value)
         eend = get_expr_end(node.value)
         name = node.target
         flow = self.flow
-        while isinstance(flow.scope, CompScope):
-            # binds in the scope the comprehension is written in
-            flow = flow.scope.entry
+        bound = AssignedName(name.id, eend, np(name), node.value)
         name.flow = flow  # type: ignore[attr-defined]
-        flow.add_name(AssignedName(name.id, eend, np(name), node.value))
-        self.generic_visit(node)
+        scope = flow.scope
+        while isinstance(scope, CompScope):
+            scope = scope.parent
+        if scope is flow.scope:
+            flow.add_name(bound)
+        else:
+            # inside a comprehension the name belongs to the scope the
+            # comprehension is written in, but it is bound only if the
+            # comprehension gets that far: it stays in this region
+            bound.scope = scope
+            if bound.name in scope.globals:
+                scope.top.add_global(bound)
+            else:
+                if bound.name not in scope.nonlocals:
+                    scope.locals.add(bound.name)
+                insert_loc(flow._names, bound)
 
 
 extract = visitor(extract_visitor)
